@@ -10,7 +10,8 @@
    One `drive` call = one poll of the task running `builder().build(conn).await` followed by the role's driver
    (`accept().await` / `poll_fn(poll_close).await`).  A history is a list of transport events and polls.
 
-   Not modelled (outside C04's alphabet): loss of the QUIC connection, peer STOP_SENDING on h3's own streams,
+   Not modelled (outside C04's alphabet): loss of the QUIC connection, peer STOP_SENDING on h3's own streams other
+   than the grease stream,
    bidirectional streams, other tasks storing a connection error in the shared state; a result `ROutside` marks
    the places.  The byte lengths of the two writes whose length depends on `fastrand` (the control stream header
    when grease is on, the grease stream's write) are intervals; when a finite budget falls inside one the result
@@ -34,13 +35,15 @@ Record world := {
   w_default : option N;         (* write budget of streams created from now on *)
   w_tx : list (N * txs);        (* write budgets of h3's own streams *)
   w_next : N;                   (* id of the next locally opened uni stream *)
-  w_log : wlog
+  w_log : wlog;
+  w_finp : list (N * N);        (* per own stream: how many more poll_finish calls answer Pending *)
+  w_pstop : list (N * N)        (* own streams the peer sent STOP_SENDING for, with the code *)
 }.
 
 Definition new_world (r : role) (credit : N) (dflt : option N) : world :=
   {| w_incoming := []; w_rx := []; w_credit := credit; w_default := dflt; w_tx := [];
      w_next := match r with RClient => 2 | RServer => 3 end;
-     w_log := {| l_stops := []; l_closed := None; l_opened := 0; l_fins := 0 |} |}.
+     w_log := {| l_stops := []; l_closed := None; l_opened := 0; l_fins := 0 |}; w_finp := []; w_pstop := [] |}.
 
 Fixpoint aset {V} (k : N) (v : V) (l : list (N * V)) : list (N * V) :=
   match l with
@@ -52,22 +55,28 @@ Definition rxq (w : world) (id : N) : rx := match assoc id (w_rx w) with Some q 
 
 Definition set_rxq (w : world) (id : N) (q : rx) : world :=
   {| w_incoming := w_incoming w; w_rx := aset id q (w_rx w); w_credit := w_credit w; w_default := w_default w;
-     w_tx := w_tx w; w_next := w_next w; w_log := w_log w |}.
+     w_tx := w_tx w; w_next := w_next w; w_log := w_log w; w_finp := w_finp w; w_pstop := w_pstop w |}.
 Definition set_incoming (w : world) (l : list N) : world :=
   {| w_incoming := l; w_rx := w_rx w; w_credit := w_credit w; w_default := w_default w;
-     w_tx := w_tx w; w_next := w_next w; w_log := w_log w |}.
+     w_tx := w_tx w; w_next := w_next w; w_log := w_log w; w_finp := w_finp w; w_pstop := w_pstop w |}.
 Definition set_log (w : world) (l : wlog) : world :=
   {| w_incoming := w_incoming w; w_rx := w_rx w; w_credit := w_credit w; w_default := w_default w;
-     w_tx := w_tx w; w_next := w_next w; w_log := l |}.
+     w_tx := w_tx w; w_next := w_next w; w_log := l; w_finp := w_finp w; w_pstop := w_pstop w |}.
 Definition set_tx (w : world) (t : list (N * txs)) : world :=
   {| w_incoming := w_incoming w; w_rx := w_rx w; w_credit := w_credit w; w_default := w_default w;
-     w_tx := t; w_next := w_next w; w_log := w_log w |}.
+     w_tx := t; w_next := w_next w; w_log := w_log w; w_finp := w_finp w; w_pstop := w_pstop w |}.
 Definition set_credit (w : world) (c : N) : world :=
   {| w_incoming := w_incoming w; w_rx := w_rx w; w_credit := c; w_default := w_default w;
-     w_tx := w_tx w; w_next := w_next w; w_log := w_log w |}.
+     w_tx := w_tx w; w_next := w_next w; w_log := w_log w; w_finp := w_finp w; w_pstop := w_pstop w |}.
+Definition set_finp (w : world) (f : list (N * N)) : world :=
+  {| w_incoming := w_incoming w; w_rx := w_rx w; w_credit := w_credit w; w_default := w_default w;
+     w_tx := w_tx w; w_next := w_next w; w_log := w_log w; w_finp := f; w_pstop := w_pstop w |}.
+Definition set_pstop (w : world) (f : list (N * N)) : world :=
+  {| w_incoming := w_incoming w; w_rx := w_rx w; w_credit := w_credit w; w_default := w_default w;
+     w_tx := w_tx w; w_next := w_next w; w_log := w_log w; w_finp := w_finp w; w_pstop := f |}.
 Definition set_default (w : world) (d : option N) : world :=
   {| w_incoming := w_incoming w; w_rx := w_rx w; w_credit := w_credit w; w_default := d;
-     w_tx := w_tx w; w_next := w_next w; w_log := w_log w |}.
+     w_tx := w_tx w; w_next := w_next w; w_log := w_log w; w_finp := w_finp w; w_pstop := w_pstop w |}.
 
 Definition add_stop (w : world) (id code : N) : world :=
   let l := w_log w in
@@ -96,7 +105,8 @@ Definition open_send (w : world) : option (N * world) :=
     let l := w_log w1 in
     Some (id, {| w_incoming := w_incoming w1; w_rx := w_rx w1; w_credit := w_credit w1 - 1; w_default := w_default w1;
                  w_tx := w_tx w1; w_next := id + 4;
-                 w_log := {| l_stops := l_stops l; l_closed := l_closed l; l_opened := l_opened l + 1; l_fins := l_fins l |} |}).
+                 w_log := {| l_stops := l_stops l; l_closed := l_closed l; l_opened := l_opened l + 1; l_fins := l_fins l |};
+                 w_finp := w_finp w1; w_pstop := w_pstop w1 |}).
 
 (* the events of a history *)
 Inductive wev :=
@@ -105,6 +115,8 @@ Inductive wev :=
 | EGrant (n : N)                (* n more credits for opening uni streams *)
 | EWrite (id : N) (k : N)       (* stream id may accept k more bytes *)
 | EDefault (k : N)              (* budget of streams created later *)
+| EFinPend (id : N) (n : N)     (* the next n poll_finish calls on own stream id answer Pending *)
+| EPeerStop (id : N) (code : N) (* the peer sends STOP_SENDING for own stream id *)
 | EPoll.                        (* the driver task is polled once *)
 
 Definition apply_wev (e : wev) (w : world) : world :=
@@ -116,12 +128,14 @@ Definition apply_wev (e : wev) (w : world) : world :=
       let t := tx_of w id in
       set_tx w (aset id {| tx_budget := Some (match tx_budget t with Some b => b | None => 0 end + k); tx_slack := tx_slack t |} (w_tx w))
   | EDefault k => set_default w (Some k)
+  | EFinPend id n => set_finp w (aset id (match assoc id (w_finp w) with Some m => m | None => 0 end + n) (w_finp w))
+  | EPeerStop id code => set_pstop w (aset id code (w_pstop w))
   | EPoll => w
   end.
 
 (* SendStream::poll_ready with a WriteBuf in flight whose length lies in [lo, hi] *)
 Definition writes := list (N * (N * N)).
-Inductive wres := WDone | WPending | WIndet.
+Inductive wres := WDone | WPending | WIndet | WStopped.
 Fixpoint wr_remove (id : N) (l : writes) : writes :=
   match l with
   | [] => []
@@ -131,6 +145,10 @@ Definition poll_ready (id : N) (wr : writes) (w : world) : wres * writes * world
   match assoc id wr with
   | None => (WDone, wr, w)
   | Some (lo, hi) =>
+    (* write_some: a stream the peer asked us to stop fails first; the buffer is gone *)
+    match assoc id (w_pstop w) with
+    | Some _ => (WStopped, wr_remove id wr, w)
+    | None =>
       let t := tx_of w id in
       match tx_budget t with
       | None => (WDone, wr_remove id wr, w)
@@ -144,6 +162,7 @@ Definition poll_ready (id : N) (wr : writes) (w : world) : wres * writes * world
              set_tx w (aset id {| tx_budget := Some 0; tx_slack := 0 |} (w_tx w)))
           else (WIndet, wr, w)
       end
+    end
   end.
 
 (* ------------------------------------------------------------------ ConnectionInner *)
@@ -176,55 +195,60 @@ Record conn := {
   c_handed : list frame;                 (* ghost: frames poll_control returned to the role's driver (the cfg(h3_verif) log) *)
   c_cause : option cause;                (* ghost: which site produced the connection error *)
   c_ctl0 : option fstream;               (* ghost: the control FrameStream (with its queue) when it was claimed *)
-  c_trace : list action                  (* ghost: since then, the arrivals on that stream and the poll_next calls *)
+  c_trace : list action;                 (* ghost: since then, the arrivals on that stream and the poll_next calls *)
+  c_sent : bool                          (* the server's sent_closing.is_some() *)
 }.
 
 Definition new_conn (grease : bool) : conn :=
   {| c_pending := []; c_control := None; c_enc := false; c_dec := false; c_wt := 0; c_got := false; c_err := None;
      c_gflag := grease; c_gstep := GNotStarted; c_gid := 0; c_settings := None; c_closing := false;
-     c_recv_closing := None; c_acted := []; c_taken := []; c_handed := []; c_cause := None; c_ctl0 := None; c_trace := [] |}.
+     c_recv_closing := None; c_acted := []; c_taken := []; c_handed := []; c_cause := None; c_ctl0 := None; c_trace := []; c_sent := false |}.
 
 Definition set_pending (c : conn) (p : list (N * arecv)) : conn :=
   {| c_pending := p; c_control := c_control c; c_enc := c_enc c; c_dec := c_dec c; c_wt := c_wt c; c_got := c_got c;
      c_err := c_err c; c_gflag := c_gflag c; c_gstep := c_gstep c; c_gid := c_gid c; c_settings := c_settings c;
-     c_closing := c_closing c; c_recv_closing := c_recv_closing c; c_acted := c_acted c; c_taken := c_taken c; c_handed := c_handed c; c_cause := c_cause c; c_ctl0 := c_ctl0 c; c_trace := c_trace c |}.
+     c_closing := c_closing c; c_recv_closing := c_recv_closing c; c_acted := c_acted c; c_taken := c_taken c; c_handed := c_handed c; c_cause := c_cause c; c_ctl0 := c_ctl0 c; c_trace := c_trace c; c_sent := c_sent c |}.
 Definition set_slots (c : conn) (ctl : option (N * fstream)) (e d : bool) (wt : N) : conn :=
   {| c_pending := c_pending c; c_control := ctl; c_enc := e; c_dec := d; c_wt := wt; c_got := c_got c;
      c_err := c_err c; c_gflag := c_gflag c; c_gstep := c_gstep c; c_gid := c_gid c; c_settings := c_settings c;
-     c_closing := c_closing c; c_recv_closing := c_recv_closing c; c_acted := c_acted c; c_taken := c_taken c; c_handed := c_handed c; c_cause := c_cause c; c_ctl0 := c_ctl0 c; c_trace := c_trace c |}.
+     c_closing := c_closing c; c_recv_closing := c_recv_closing c; c_acted := c_acted c; c_taken := c_taken c; c_handed := c_handed c; c_cause := c_cause c; c_ctl0 := c_ctl0 c; c_trace := c_trace c; c_sent := c_sent c |}.
 Definition set_control (c : conn) (ctl : option (N * fstream)) : conn := set_slots c ctl (c_enc c) (c_dec c) (c_wt c).
 Definition set_err (c : conn) (e : option N) (z : cause) : conn :=
   {| c_pending := c_pending c; c_control := c_control c; c_enc := c_enc c; c_dec := c_dec c; c_wt := c_wt c; c_got := c_got c;
      c_err := e; c_gflag := c_gflag c; c_gstep := c_gstep c; c_gid := c_gid c; c_settings := c_settings c;
-     c_closing := c_closing c; c_recv_closing := c_recv_closing c; c_acted := c_acted c; c_taken := c_taken c; c_handed := c_handed c; c_cause := Some z; c_ctl0 := c_ctl0 c; c_trace := c_trace c |}.
+     c_closing := c_closing c; c_recv_closing := c_recv_closing c; c_acted := c_acted c; c_taken := c_taken c; c_handed := c_handed c; c_cause := Some z; c_ctl0 := c_ctl0 c; c_trace := c_trace c; c_sent := c_sent c |}.
 Definition log_taken (c : conn) (f : frame) : conn :=
   {| c_pending := c_pending c; c_control := c_control c; c_enc := c_enc c; c_dec := c_dec c; c_wt := c_wt c; c_got := c_got c;
      c_err := c_err c; c_gflag := c_gflag c; c_gstep := c_gstep c; c_gid := c_gid c; c_settings := c_settings c;
-     c_closing := c_closing c; c_recv_closing := c_recv_closing c; c_acted := c_acted c; c_taken := c_taken c ++ [f]; c_handed := c_handed c; c_cause := c_cause c; c_ctl0 := c_ctl0 c; c_trace := c_trace c |}.
+     c_closing := c_closing c; c_recv_closing := c_recv_closing c; c_acted := c_acted c; c_taken := c_taken c ++ [f]; c_handed := c_handed c; c_cause := c_cause c; c_ctl0 := c_ctl0 c; c_trace := c_trace c; c_sent := c_sent c |}.
 Definition set_ghost (c : conn) (s0 : option fstream) (t : list action) : conn :=
   {| c_pending := c_pending c; c_control := c_control c; c_enc := c_enc c; c_dec := c_dec c; c_wt := c_wt c; c_got := c_got c;
      c_err := c_err c; c_gflag := c_gflag c; c_gstep := c_gstep c; c_gid := c_gid c; c_settings := c_settings c;
-     c_closing := c_closing c; c_recv_closing := c_recv_closing c; c_acted := c_acted c; c_taken := c_taken c; c_handed := c_handed c; c_cause := c_cause c; c_ctl0 := s0; c_trace := t |}.
+     c_closing := c_closing c; c_recv_closing := c_recv_closing c; c_acted := c_acted c; c_taken := c_taken c; c_handed := c_handed c; c_cause := c_cause c; c_ctl0 := s0; c_trace := t; c_sent := c_sent c |}.
+Definition set_sent (c : conn) : conn :=
+  {| c_pending := c_pending c; c_control := c_control c; c_enc := c_enc c; c_dec := c_dec c; c_wt := c_wt c; c_got := c_got c;
+     c_err := c_err c; c_gflag := c_gflag c; c_gstep := c_gstep c; c_gid := c_gid c; c_settings := c_settings c;
+     c_closing := c_closing c; c_recv_closing := c_recv_closing c; c_acted := c_acted c; c_taken := c_taken c; c_handed := c_handed c; c_cause := c_cause c; c_ctl0 := c_ctl0 c; c_trace := c_trace c; c_sent := true |}.
 Definition log_handed (c : conn) (f : frame) : conn :=
   {| c_pending := c_pending c; c_control := c_control c; c_enc := c_enc c; c_dec := c_dec c; c_wt := c_wt c; c_got := c_got c;
      c_err := c_err c; c_gflag := c_gflag c; c_gstep := c_gstep c; c_gid := c_gid c; c_settings := c_settings c;
-     c_closing := c_closing c; c_recv_closing := c_recv_closing c; c_acted := c_acted c; c_taken := c_taken c; c_handed := c_handed c ++ [f]; c_cause := c_cause c; c_ctl0 := c_ctl0 c; c_trace := c_trace c |}.
+     c_closing := c_closing c; c_recv_closing := c_recv_closing c; c_acted := c_acted c; c_taken := c_taken c; c_handed := c_handed c ++ [f]; c_cause := c_cause c; c_ctl0 := c_ctl0 c; c_trace := c_trace c; c_sent := c_sent c |}.
 Definition set_grease (c : conn) (f : bool) (s : gstep) (id : N) : conn :=
   {| c_pending := c_pending c; c_control := c_control c; c_enc := c_enc c; c_dec := c_dec c; c_wt := c_wt c; c_got := c_got c;
      c_err := c_err c; c_gflag := f; c_gstep := s; c_gid := id; c_settings := c_settings c;
-     c_closing := c_closing c; c_recv_closing := c_recv_closing c; c_acted := c_acted c; c_taken := c_taken c; c_handed := c_handed c; c_cause := c_cause c; c_ctl0 := c_ctl0 c; c_trace := c_trace c |}.
+     c_closing := c_closing c; c_recv_closing := c_recv_closing c; c_acted := c_acted c; c_taken := c_taken c; c_handed := c_handed c; c_cause := c_cause c; c_ctl0 := c_ctl0 c; c_trace := c_trace c; c_sent := c_sent c |}.
 Definition set_got_settings (c : conn) (s : option Settings.applied) : conn :=
   {| c_pending := c_pending c; c_control := c_control c; c_enc := c_enc c; c_dec := c_dec c; c_wt := c_wt c; c_got := true;
      c_err := c_err c; c_gflag := c_gflag c; c_gstep := c_gstep c; c_gid := c_gid c; c_settings := s;
-     c_closing := c_closing c; c_recv_closing := c_recv_closing c; c_acted := c_acted c; c_taken := c_taken c; c_handed := c_handed c; c_cause := c_cause c; c_ctl0 := c_ctl0 c; c_trace := c_trace c |}.
+     c_closing := c_closing c; c_recv_closing := c_recv_closing c; c_acted := c_acted c; c_taken := c_taken c; c_handed := c_handed c; c_cause := c_cause c; c_ctl0 := c_ctl0 c; c_trace := c_trace c; c_sent := c_sent c |}.
 Definition set_closing (c : conn) (rc : option N) : conn :=
   {| c_pending := c_pending c; c_control := c_control c; c_enc := c_enc c; c_dec := c_dec c; c_wt := c_wt c; c_got := c_got c;
      c_err := c_err c; c_gflag := c_gflag c; c_gstep := c_gstep c; c_gid := c_gid c; c_settings := c_settings c;
-     c_closing := true; c_recv_closing := rc; c_acted := c_acted c; c_taken := c_taken c; c_handed := c_handed c; c_cause := c_cause c; c_ctl0 := c_ctl0 c; c_trace := c_trace c |}.
+     c_closing := true; c_recv_closing := rc; c_acted := c_acted c; c_taken := c_taken c; c_handed := c_handed c; c_cause := c_cause c; c_ctl0 := c_ctl0 c; c_trace := c_trace c; c_sent := c_sent c |}.
 Definition log_act (c : conn) (a : act) : conn :=
   {| c_pending := c_pending c; c_control := c_control c; c_enc := c_enc c; c_dec := c_dec c; c_wt := c_wt c; c_got := c_got c;
      c_err := c_err c; c_gflag := c_gflag c; c_gstep := c_gstep c; c_gid := c_gid c; c_settings := c_settings c;
-     c_closing := c_closing c; c_recv_closing := c_recv_closing c; c_acted := c_acted c ++ [a]; c_taken := c_taken c; c_handed := c_handed c; c_cause := c_cause c; c_ctl0 := c_ctl0 c; c_trace := c_trace c |}.
+     c_closing := c_closing c; c_recv_closing := c_recv_closing c; c_acted := c_acted c ++ [a]; c_taken := c_taken c; c_handed := c_handed c; c_cause := c_cause c; c_ctl0 := c_ctl0 c; c_trace := c_trace c; c_sent := c_sent c |}.
 
 (* results of the poll functions of this file *)
 Inductive pres (A : Type) :=
@@ -303,9 +327,13 @@ Inductive gres := GReady | GPending | GIndet.
 
 Definition grease_finish (s : cst) : gres * cst :=
   let '(c, w, wr) := s in
-  (* DataSent: poll_finish is immediate on this transport; then `send_grease_stream_flag = false` *)
+  (* DataSent: poll_finish (Pending while the transport says so); then `send_grease_stream_flag = false` *)
   match c_gstep c with
-  | GDataSent => (GReady, (set_grease c false GFinished (c_gid c), log_fin w, wr))
+  | GDataSent =>
+      match assoc (c_gid c) (w_finp w) with
+      | Some (Npos p) => (GPending, (c, set_finp w (aset (c_gid c) (Npos p - 1) (w_finp w)), wr))
+      | _ => (GReady, (set_grease c false GFinished (c_gid c), log_fin w, wr))
+      end
   | _ => (GReady, (set_grease c false (c_gstep c) (c_gid c), w, wr))
   end.
 Definition grease_ready (s : cst) : gres * cst :=
@@ -316,6 +344,7 @@ Definition grease_ready (s : cst) : gres * cst :=
       | (WDone, wr', w') => grease_finish (set_grease c (c_gflag c) GDataSent (c_gid c), w', wr')
       | (WPending, wr', w') => (GPending, (c, w', wr'))
       | (WIndet, wr', w') => (GIndet, (c, w', wr'))
+      | (WStopped, wr', w') => (GReady, (set_grease c false (c_gstep c) (c_gid c), w', wr'))   (* `Err(_)`: don't try again *)
       end
   | _ => grease_finish s
   end.
@@ -493,6 +522,7 @@ Inductive phase :=
 | PhHeaders          (* send_control_stream_headers: the join3 of the three header writes *)
 | PhRun              (* the role's driver *)
 | PhShutdown         (* server: accept() saw the end and is writing its last GOAWAY *)
+| PhNone             (* server: accept() answered None; the application calls accept() again at the next poll *)
 | PhDone.
 
 Record drv := {
@@ -523,7 +553,12 @@ Definition fuel_of (s : cst) : nat :=
 Definition finish (d : drv) (ph : phase) (s : cst) (r : dres) : drv :=
   {| d_role := d_role d; d_grease := d_grease d; d_wt := d_wt d; d_ph := ph; d_s := s; d_res := r;
      d_polls := d_polls d;
-     d_at := match r with RPending => d_at d | _ => match d_at d with Some a => Some a | None => Some (d_polls d) end end |}.
+     (* the poll at which the present result was first returned *)
+     d_at := match r with
+             | RPending => d_at d
+             | RNone => match d_res d with RNone => d_at d | _ => Some (d_polls d) end
+             | _ => Some (d_polls d)
+             end |}.
 
 Definition of_pres {A} (r : pres A) : dres :=
   match r with
@@ -535,9 +570,10 @@ Definition of_pres {A} (r : pres A) : dres :=
 Definition run_shutdown (d : drv) (s : cst) : drv :=
   let '(c, w, wr) := s in
   match poll_ready (control_send_id (d_role d)) wr w with
-  | (WDone, wr', w') => finish d PhDone (c, w', wr') RNone
+  | (WDone, wr', w') => finish d PhNone (c, w', wr') RNone
   | (WPending, wr', w') => finish d PhShutdown (c, w', wr') RPending
   | (WIndet, wr', w') => finish d PhDone (c, w', wr') RIndet
+  | (WStopped, wr', w') => finish d PhDone (c, w', wr') ROutside
   end.
 
 Definition run_driver (d : drv) (s : cst) : drv :=
@@ -548,8 +584,13 @@ Definition run_driver (d : drv) (s : cst) : drv :=
           (* poll_accept_bi is Pending (no bidirectional streams here); `done` = a GOAWAY was received and no request is running *)
           match c_recv_closing c with
           | Some _ =>
-              (* shutdown(0): set_closing, write GOAWAY(0) on the control stream *)
-              run_shutdown d (set_closing c (c_recv_closing c), w, aset (control_send_id RServer) goaway_frame_size wr)
+              if c_sent c then
+                (* shutdown(0) again: `*sent_id <= max_id`, nothing is written; accept() answers None again *)
+                finish d PhNone (c, w, wr) RNone
+              else
+                (* shutdown(0): sent_closing = Some(0), set_closing, write GOAWAY(0) on the control stream *)
+                run_shutdown d (set_sent (set_closing c (c_recv_closing c)), w,
+                                aset (control_send_id RServer) goaway_frame_size wr)
           | None => finish d PhRun (c, w, wr) RPending
           end
       | (r, s1) => finish d PhDone s1 (of_pres r)
@@ -566,12 +607,15 @@ Definition run_headers (d : drv) (s : cst) : drv :=
   let r := d_role d in
   match poll_ready (control_send_id r) wr w with
   | (WIndet, wr1, w1) => finish d PhDone (c, w1, wr1) RIndet
+  | (WStopped, wr1, w1) => finish d PhDone (c, w1, wr1) ROutside
   | (r1, wr1, w1) =>
       match poll_ready (decoder_send_id r) wr1 w1 with
       | (WIndet, wr2, w2) => finish d PhDone (c, w2, wr2) RIndet
+      | (WStopped, wr2, w2) => finish d PhDone (c, w2, wr2) ROutside
       | (r2, wr2, w2) =>
           match poll_ready (encoder_send_id r) wr2 w2 with
           | (WIndet, wr3, w3) => finish d PhDone (c, w3, wr3) RIndet
+          | (WStopped, wr3, w3) => finish d PhDone (c, w3, wr3) ROutside
           | (r3, wr3, w3) =>
               match r1, r2, r3 with
               | WDone, WDone, WDone => run_driver d (c, w3, wr3)
@@ -608,6 +652,7 @@ Definition drive (d : drv) : drv :=
   | PhHeaders => run_headers d1 (d_s d1)
   | PhRun => run_driver d1 (d_s d1)
   | PhShutdown => run_shutdown d1 (d_s d1)
+  | PhNone => run_driver d1 (d_s d1)
   end.
 
 (* ghost: an arrival on the claimed control stream is appended to its trace *)
@@ -630,5 +675,7 @@ Definition run_history (h : list wev) (d : drv) : drv := fold_left step h d.
 
 (* observables *)
 Definition built (d : drv) : bool := match d_ph d with PhOpen _ | PhHeaders => false | _ => true end.
+(* the driver is waiting for the transport to take bytes of its own control stream (or is still being built) *)
+Definition blocked (d : drv) : bool := match d_ph d with PhOpen _ | PhHeaders | PhShutdown => true | _ => false end.
 Definition conn_of (d : drv) : conn := let '(c, _, _) := d_s d in c.
 Definition world_of (d : drv) : world := let '(_, w, _) := d_s d in w.
